@@ -53,9 +53,8 @@ TRUSTED = ["harness/props/c14.py driver: graph construction through the public A
 ASSUMPTIONS = ["children and candidates are function nodes (a macro / workflow is only the composite being edited); "
                "no executors, nothing running (data_input_locked is False); hint tags int / str / int|str; values "
                "are ints and strings",
-               "a failed Workflow._rebuild_data_io ends in RecursionError at a depth-dependent graph: only the "
-               "outcome is compared for it; IO maps are not combined with injected failures (a failure firing somewhere "
-               "inside the swap-back recursion is not modelled)",
+               "Workflow._rebuild_data_io (tree at a33e34e) finds every exposed channel under its own key and moves "
+               "nothing; its failure branch (swap back + re-raise) is modelled but not reachable in the explored graphs",
                "for a Workflow the inbound/outbound value-link scan of replace_child is empty (children of a "
                "workflow carry no value links in the explored graphs)"]
 
@@ -130,8 +129,13 @@ def k9(x: int = 0, z: int = 0) -> int:
     return y
 
 
-KFUN = [k0, k1, k2, k3, k4, k5, k6, k7, k8, k9]
-KNAME = ["base", "twin", "extra", "no-z", "no-y", "x:str", "y:str", "loose", "bare", "z:int"]
+def k10(p=0, q=0):
+    r = (3 * _num(p) + 5 * _num(q) + 1) % 997
+    return r
+
+
+KFUN = [k0, k1, k2, k3, k4, k5, k6, k7, k8, k9, k10]
+KNAME = ["base", "twin", "extra", "no-z", "no-y", "x:str", "y:str", "loose", "bare", "z:int", "macro-like p,q->r"]
 _KCLS = {}
 _KIND_IO = {}
 
@@ -257,6 +261,8 @@ def statics(case):
             out.append((0, LIDX[l], 0, h, True))
         for (l, h) in outs:
             out.append((0, LIDX[l], 1, h, True))
+        for (l, pi) in (("run", 2), ("accumulate_and_run", 2), ("ran", 3), ("failed", 3)):
+            out.append((0, LIDX[l], pi, None, True))
     for i, (kind, _role) in enumerate(case["nodes"], start=1):
         for (l, pi, hint, _d) in kind_io(kind):
             out.append((i, l, pi, hint, len(out) not in loose))
@@ -430,9 +436,9 @@ class Universe:
 
     def _register(self, i):
         n = self.nodes[i]
-        panels = [n.inputs, n.outputs] if i == 0 else list(n._owned_io_panels)
+        panels = list(n._owned_io_panels)          # a macro: inputs, outputs, signals
         if i == 0 and self.case["comp"] == "wf":
-            panels = []
+            panels = []                            # a workflow owns no data channels; its signals stay out
         chans = [ch for p in panels for ch in p]
         mine = [c for c, s in enumerate(self.st) if s[0] == i]
         assert len(chans) == len(mine), f"node {i}: {len(chans)} channels, layout says {len(mine)}"
@@ -632,8 +638,6 @@ def op_coq(case):
 
 
 def model_term(case):
-    if not case.get("compat") and case.get("wmap") and case.get("fault"):
-        return None      # a fault firing somewhere inside the swap-back recursion of a failed rebuild: not modelled
     if case.get("compat"):
         return ("OL [OL " + cl(f"ob (compat {o} {i})" for o, _ho in HTAGS for i, _hi in HTAGS) + "; OL "
                 + cl(f"ob (valid {v} {t})" for v in ("(VI 3)", "(VS 3)") for t, _h in HTAGS) + "]")
@@ -848,14 +852,30 @@ def cause_order(case):
 
 
 def cause_two_logs(case):
-    """copy_io(values_fail_hard=True): the inputs panel transfers a value and the outputs panel can fail"""
+    """copy_io(values_fail_hard=True): the inputs panel transfers a value and the OUTPUTS panel can fail (an output
+    value of the source has no counterpart / is refused by the counterpart or its value receiver, or a value transfer
+    was made to fail)"""
     op = case["op"]
     if op[0] != "copy_io" or not op[4]:
         return False
     st = statics(case)
     vals = {c: v for c, v in case["vals"]}
     src_in = [c for c in range(len(st)) if st[c][0] == op[2] and st[c][2] == 0 and vals.get(c)]
-    return any(counterpart(case, c, op[1]) is not None for c in src_in)
+    if not any(counterpart(case, c, op[1]) is not None for c in src_in):
+        return False
+    if (case.get("fault") or [None])[0] == "v":
+        return True
+    recv = dict(_links(case))
+    for c in range(len(st)):
+        if st[c][0] == op[2] and st[c][2] == 1 and vals.get(c):
+            m = counterpart(case, c, op[1])
+            if m is None:
+                return True
+            while m is not None:                      # the counterpart, then down its value links
+                if st[m][4] and not valid(vals[c], st[m][3]):
+                    return True
+                m = recv.get(m)
+    return False
 
 
 def cause_receiver_undo(case):
@@ -885,20 +905,6 @@ def cause_wire_multi(case):
     return False
 
 
-def cause_wf_map(case):
-    """Workflow.replace_child with an IO map that exposes a connected channel"""
-    if case["op"][0] != "replace" or case["comp"] != "wf" or not case.get("wmap"):
-        return False
-    st, cons = _graph(case)
-    # after the swap the label of the old node belongs to the candidate, whose channels carry the copied connections
-    old, new = case["op"][1], case["op"][2]
-    for nl, chl, inp, _key in case["wmap"]:
-        for c in range(len(st)):
-            if st[c][1] == chl and st[c][2] == (0 if inp else 1) and st[c][0] == nl and cons[c]:
-                return True
-    return False
-
-
 def known(case, obs, verdict):
     if case.get("compat") or not isinstance(obs, list) or len(obs) != 4:
         return None
@@ -906,12 +912,8 @@ def known(case, obs, verdict):
     op = case["op"]
     sig = verdict.split(":")[0]
     fault = (case.get("fault") or [None, 0])[0]
-    if sig == "recursion":
-        return "C14-wf-map-rebuild" if cause_wf_map(case) else None
     if sig == "inherit-order" and cause_order(case):
         return "S13-replace-priority-not-inherited"
-    if sig in ("inherit-order", "inherit-conn") and cause_wf_map(case):
-        return "C14-wf-map-rebuild"
     if sig == "not-atomic":
         if op[0] in ("copy_conns", "copy_io") and cause_shared(case):
             return "S13-copy-undo-drops-shared-connection"
@@ -1123,8 +1125,7 @@ def gen_replace(rng, comp=None, cand=None, fault="rand"):
         _add_edges(rng, case, [new, new + 1], 1, rng.choice([0, 1]), force_multi=False)
         if not any(statics(case)[a][0] == new or statics(case)[b][0] == new for a, b in case["edges"]):
             return None
-    if comp == "wf" and fault in ("rand", None) and rng.random() < 0.12:
-        fault = None              # (a fault firing inside the endless swap-back recursion is not modelled)
+    if comp == "wf" and rng.random() < 0.15:
         st, cons = _graph(case)
         ent = []
         for c in range(len(st)):
@@ -1165,12 +1166,17 @@ def gen_copy(rng, fault="rand"):
     comp = rng.choice(["wf", "wf", "mac"])
     case = {"comp": comp, "nodes": [], "edges": [], "start": [], "vals": [], "op": None, "fault": None}
     if comp == "mac":
-        case["mcls"] = rng.choice([0, 3])
+        case["mcls"] = rng.choice([0, 0, 3, 3, 1])
     nchild = rng.choice([2, 3])
-    kinds = [rng.choice([0, 0, 7, 8, 2]) for _ in range(nchild)]
+    kinds = [rng.choice([0, 0, 7, 8, 2, 9]) for _ in range(nchild)]
     case["nodes"] = [[k, "child"] for k in kinds]
     for _ in range(rng.choice([1, 2, 2])):
         case["nodes"].append([rng.choice([0, 0, 1, 2, 3, 4, 5, 6, 7, 8, 9]), "free"])
+    onto_macro = None
+    if comp == "mac" and rng.random() < 0.45:
+        # the macro itself gives / takes the IO of a node with its channel labels: values travel down the value links
+        case["nodes"].append([10, "free"])
+        onto_macro = len(case["nodes"])
     st = statics(case)
     if comp == "mac":
         ins, outs = MAC_IO[case["mcls"]]
@@ -1212,6 +1218,8 @@ def gen_copy(rng, fault="rand"):
         case["op"] = ["copy_conns", a, o]
     else:
         dst, src = rng.sample(everyone, 2)
+        if comp == "mac" and onto_macro is not None:
+            dst, src = (0, onto_macro) if rng.random() < 0.8 else (onto_macro, 0)
         case["op"] = ["copy_io", dst, src, rng.random() < 0.8, rng.random() < 0.5]
     if fault == "rand":
         n_c, n_v, _n_l = _transfers(case)
